@@ -33,6 +33,12 @@ def run(ctx):
             # export at quiescent points of the history as well (the exporter must not remember anything)
             from ..engines.b_builders import Actor, ModuleCtl
             if any((isinstance(a, Actor) and not a.closed) or (not isinstance(a, (Actor, ModuleCtl)) and not a.closed) for a in sim.actors):
+                if ch.coin(1, 10, "export-incomplete"):
+                    # fault, then workload: exporting while operations are incomplete fails; the final export must not care
+                    try:
+                        sim.hugr.to_model()
+                    except Exception:  # noqa: BLE001
+                        ctx.fault("export_of_incomplete_hugr_failed")
                 return
             if len(sim.hugr) > 3 and ch.coin(1, 6, "mid-history-export"):
                 try:
